@@ -70,7 +70,7 @@ func (n *netStub) AskSignPkMessage(msg *model.SignPubkeyReqMessage, receiver gro
 // Msg describes one delivered verify message.
 type Msg struct {
 	From  int    `json:"from"`  // member index (or -1: non-member)
-	Class string `json:"class"` // honest | other-hash | consistent-other-hash | signpk-overwrite | replay-block-share | garbage | identity | bad-beacon | replay-beacon | non-member | duplicate | wrong-filed-hash
+	Class string `json:"class"` // honest | other-hash | consistent-other-hash | signpk-overwrite | signpk-squat | non-member-announced | replay-block-share | garbage | identity | bad-beacon | replay-beacon | non-member | duplicate | wrong-filed-hash
 	Aux   int    `json:"aux,omitempty"`
 }
 
@@ -79,6 +79,10 @@ type Case struct {
 	Seq    int   `json:"seq"`
 	Msgs   []Msg `json:"msgs"`
 	Future int   `json:"future"` // the first Future messages are stored before the round starts
+	// LateKey = i+1: the node does not know member i's sign public key when the case starts
+	// (fresh joined-group storage for this case); the member's genuine self-certified
+	// announcement is delivered right before its first own message. 0: all keys known.
+	LateKey int `json:"late_key,omitempty"`
 }
 
 type group struct {
@@ -89,6 +93,22 @@ type group struct {
 	gpk      groupsig.Pubkey
 	info     *model.GroupInfo
 	outsider *model.SelfMinerInfo
+	gh       common.Hash
+	ns       *netStub
+}
+
+// installStore gives the node a joined-group storage that knows the sign public key of
+// every member except `without` (-1: all known), as on a node that has not yet received
+// that member's announcement.
+func (g *group) installStore(store *access.JoinedGroupStorage, without int) {
+	jg := model.NewJoindGroupInfo(g.dkg.SignSKs[0], g.gpk, g.gh)
+	for i := 0; i < g.n; i++ {
+		if i != without {
+			jg.AddMemberSignPK(g.dkg.IDs[i], g.dkg.SignPKs[i])
+		}
+	}
+	store.JoinGroup(jg, g.dkg.IDs[0])
+	group_create.VerifSetup(*g.members[0], store, g.ns)
 }
 
 func minerFromRng(rng *rand.Rand) *model.SelfMinerInfo {
@@ -112,11 +132,7 @@ func newGroup(rng *rand.Rand, n int, store *access.JoinedGroupStorage) *group {
 	g.k = g.dkg.K
 	g.gpk = g.dkg.GroupPKs[0]
 	g.gid = *groupsig.NewIDFromPubkey(g.gpk)
-	jg := model.NewJoindGroupInfo(g.dkg.SignSKs[0], g.gpk, gh)
-	for i := 0; i < n; i++ {
-		jg.AddMemberSignPK(g.dkg.IDs[i], g.dkg.SignPKs[i])
-	}
-	store.JoinGroup(jg, g.dkg.IDs[0])
+	g.gh = gh
 	header := &types.GroupHeader{Hash: gh}
 	g.info = &model.GroupInfo{GroupID: g.gid, GroupPK: g.gpk, GroupInitInfo: &model.GroupInitInfo{GroupHeader: header, GroupMembers: g.dkg.IDs}}
 	g.info.BuildMemberIndex()
@@ -145,6 +161,21 @@ func runCase(r *mon.Run, g *group, c Case, rng *rand.Rand, ns *netStub) {
 		validBeacon[i] = sigBytes(groupsig.Sign(g.dkg.SignSKs[i], preRandom))
 		idIndex[g.dkg.IDs[i].GetHexString()] = i
 	}
+	if c.LateKey > 0 {
+		g.installStore(access.VerifNewJoinedGroupStorage(&jgChain{m: map[string][]byte{}}), c.LateKey-1)
+		defer g.installStore(access.VerifNewJoinedGroupStorage(&jgChain{m: map[string][]byte{}}), -1)
+		r.Count("late_key_cases", 1)
+	}
+	announced := false
+	announce := func(id groupsig.ID, key groupsig.Seckey, counter string) func() {
+		spk := &model.SignPubKeyMessage{GroupHash: g.gh, GroupID: g.gid, SignPK: *groupsig.GeneratePubkey(key), GroupMemberNum: int32(g.n)}
+		h := spk.GenHash()
+		spk.SignInfo = model.MakeSignInfo(h, groupsig.Sign(key, h.Bytes()), id, common.ConsensusVersion)
+		return func() {
+			group_create.GroupCreateProcessor.OnMessageSignPK(spk)
+			r.Count(counter, 1)
+		}
+	}
 	pre := map[int]func(){} // delivered through another entry point right before message mi
 	mkMsg := func(mi int, m Msg) *model.ConsensusVerifyMessage {
 		cvm := &model.ConsensusVerifyMessage{BlockHash: bhHash, Id: fmt.Sprintf("m%d-%d", c.Seq, mi)}
@@ -159,12 +190,34 @@ func runCase(r *mon.Run, g *group, c Case, rng *rand.Rand, ns *netStub) {
 		blockSig := groupsig.Sign(sk, bhHash.Bytes())
 		beacon := groupsig.Sign(sk, preRandom)
 		dataHash := bhHash
+		if c.LateKey > 0 && i == c.LateKey-1 && m.Class != "signpk-squat" && !announced {
+			// the member's own announcement precedes its first own message
+			announced = true
+			pre[mi] = announce(id, sk, "signpk_announcements_genuine_late")
+		}
 		switch m.Class {
 		case "other-hash": // well-signed share over another hash, filed under this block
 			blockSig, dataHash = groupsig.Sign(sk, otherHash.Bytes()), otherHash
 		case "consistent-other-hash": // self-consistent message of another block (BlockHash = data hash = other hash) handed to this round
 			blockSig, dataHash = groupsig.Sign(sk, otherHash.Bytes()), otherHash
 			cvm.BlockHash = otherHash
+		case "non-member-announced":
+			// a non-member first announces a sign public key for its OWN id through the
+			// sign-pubkey handler (self-signed, as the handler requires), then sends shares
+			// made with that key
+			spk := &model.SignPubKeyMessage{GroupHash: g.info.GroupInitInfo.GroupHeader.Hash, GroupID: g.gid, SignPK: *groupsig.GeneratePubkey(sk), GroupMemberNum: int32(g.n)}
+			h := spk.GenHash()
+			spk.SignInfo = model.MakeSignInfo(h, groupsig.Sign(sk, h.Bytes()), id, common.ConsensusVersion)
+			pre[mi] = func() {
+				group_create.GroupCreateProcessor.OnMessageSignPK(spk)
+				r.Count("signpk_announcements_by_non_member", 1)
+			}
+		case "signpk-squat":
+			// member From's key is not known yet (LateKey): somebody else announces a key for
+			// that id FIRST (self-signed with the announced key), then sends shares made with it
+			ask := g.outsider.SecKey
+			pre[mi] = announce(id, ask, "signpk_announcements_squatting_unknown_member_key")
+			blockSig, beacon = groupsig.Sign(ask, bhHash.Bytes()), groupsig.Sign(ask, preRandom)
 		case "signpk-overwrite":
 			// the sender first announces, through the sign-pubkey message handler, another key for
 			// the id of member From (self-signed with that key, as the handler requires), then sends
@@ -213,30 +266,55 @@ func runCase(r *mon.Run, g *group, c Case, rng *rand.Rand, ns *netStub) {
 	}
 	round := logical.VerifNewRound1(g.info, preBH, bh, &blockChainStub{}, g.dkg.IDs[0], future)
 	fail := func(sig, what string) { r.Violation(sig, what, c) }
+	sfx := "" // cases that squat on a not yet known member key carry their own signatures
+	for _, m := range c.Msgs {
+		if m.Class == "signpk-squat" && c.LateKey > 0 {
+			sfx = ":signpk-squat"
+		}
+	}
 
-	judge := func(at string) {
+	// every share-set entry is attributed to the message during whose delivery it appeared
+	blockBy, beaconBy := map[string]string{}, map[string]string{}
+	judge := func(at string, cur []Msg) {
+		classOf := func(i int) string {
+			cls := "invalid"
+			for _, m := range cur {
+				if m.From == i {
+					cls = m.Class
+					if m.Class != "honest" && m.Class != "duplicate" {
+						break
+					}
+				}
+			}
+			return cls
+		}
 		for idHex, s := range round.BlockShares() {
 			i, member := idIndex[idHex]
 			r.Count("share_set_entries_checked", 1)
+			if _, seen := blockBy[idHex]; !seen {
+				blockBy[idHex] = classOf(i)
+			}
 			if !member {
 				fail("C15:block-share-set:non-member-entry", at+": the block share set holds an entry for a non-member")
 			} else if sigBytes(s) != validBlock[i] {
-				cls := "invalid"
-				for _, m := range c.Msgs {
-					if m.From == i && m.Class != "honest" && m.Class != "duplicate" {
-						cls = m.Class
-					}
-				}
-				fail("C15:block-share-set:entry-not-valid-for-this-block:"+cls, fmt.Sprintf("%s: the block share set holds for member %d a value that is not that member's share over this block's hash (sender class %s)", at, i, cls))
+				cls := blockBy[idHex]
+				fail("C15:block-share-set:entry-not-valid-for-this-block:"+cls, fmt.Sprintf("%s: the block share set holds for member %d a value that is not that member's share over this block's hash (entered with a message of class %s)", at, i, cls))
 			}
 		}
 		for idHex, s := range round.BeaconShares() {
 			i, member := idIndex[idHex]
 			r.Count("share_set_entries_checked", 1)
+			if _, seen := beaconBy[idHex]; !seen {
+				beaconBy[idHex] = classOf(i)
+			}
 			if !member {
 				fail("C15:beacon-share-set:non-member-entry", at+": the beacon share set holds an entry for a non-member")
 			} else if sigBytes(s) != validBeacon[i] {
-				fail("C15:beacon-share-set:entry-not-valid-for-previous-beacon", fmt.Sprintf("%s: the beacon share set holds for member %d a value that is not that member's share over the previous beacon value", at, i))
+				sig := "C15:beacon-share-set:entry-not-valid-for-previous-beacon"
+				if beaconBy[idHex] == "signpk-squat" {
+					sig += ":signpk-squat"
+				}
+				fail(sig, fmt.Sprintf("%s: the beacon share set holds for member %d a value that is not that member's share over the previous beacon value (entered with a message of class %s)", at, i, beaconBy[idHex]))
 			}
 		}
 	}
@@ -246,7 +324,7 @@ func runCase(r *mon.Run, g *group, c Case, rng *rand.Rand, ns *netStub) {
 			r.Count("start_errors", 1)
 		}
 		if c.Future > 0 {
-			judge("after Start with stored messages")
+			judge("after Start with stored messages", c.Msgs[:minInt(c.Future, len(c.Msgs))])
 		}
 		for mi := c.Future; mi < len(msgs); mi++ {
 			if f := pre[mi]; f != nil {
@@ -261,7 +339,7 @@ func runCase(r *mon.Run, g *group, c Case, rng *rand.Rand, ns *netStub) {
 			}
 			r.Count("messages_delivered", 1)
 			r.Count("class_"+c.Msgs[mi].Class, 1)
-			judge(fmt.Sprintf("after message %d (%s from %d)", mi, c.Msgs[mi].Class, c.Msgs[mi].From))
+			judge(fmt.Sprintf("after message %d (%s from %d)", mi, c.Msgs[mi].Class, c.Msgs[mi].From), c.Msgs[mi:mi+1])
 		}
 	})
 	if panicked {
@@ -282,12 +360,12 @@ func runCase(r *mon.Run, g *group, c Case, rng *rand.Rand, ns *netStub) {
 	if round.CanProceed() {
 		r.Count("recoveries", 1)
 		if err := round.CheckSignature(); err != nil {
-			fail("C15:finalise:recovered-signature-invalid", fmt.Sprintf("threshold reached (%d honest senders of %d, k=%d) but the recovered block signature / beacon does not verify: %v", len(honest), g.n, g.k, err))
+			fail("C15:finalise:recovered-signature-invalid"+sfx, fmt.Sprintf("threshold reached (%d honest senders of %d, k=%d) but the recovered block signature / beacon does not verify: %v", len(honest), g.n, g.k, err))
 		} else {
 			r.Count("recoveries_valid", 1)
 		}
 	} else if len(honest) >= g.k {
-		fail("C15:finalise:threshold-of-valid-shares-not-recovered", fmt.Sprintf("valid shares from %d distinct members (k=%d) were delivered but the round did not recover a signature", len(honest), g.k))
+		fail("C15:finalise:threshold-of-valid-shares-not-recovered"+sfx, fmt.Sprintf("valid shares from %d distinct members (k=%d) were delivered but the round did not recover a signature", len(honest), g.k))
 	}
 }
 
@@ -316,6 +394,8 @@ func genCase(rng *rand.Rand, n, k, seq int) Case {
 	}
 	if rng.Intn(3) == 0 {
 		msgs = append(msgs, Msg{From: -1, Class: "non-member"})
+	} else if rng.Intn(3) == 0 {
+		msgs = append(msgs, Msg{From: -1, Class: "non-member-announced"})
 	}
 	if rng.Intn(2) == 0 && len(msgs) > 0 {
 		m := msgs[rng.Intn(len(msgs))]
@@ -327,10 +407,36 @@ func genCase(rng *rand.Rand, n, k, seq int) Case {
 	// half of the time make sure a Byzantine message comes first (before the k-th honest one)
 	if rng.Intn(2) == 0 {
 		for i, m := range msgs {
-			if m.Class != "honest" && m.Class != "duplicate" && m.Class != "non-member" {
+			if m.Class != "honest" && m.Class != "duplicate" && m.Class != "non-member" && m.Class != "non-member-announced" {
 				msgs[0], msgs[i] = msgs[i], msgs[0]
 				break
 			}
+		}
+	}
+	// a fifth of the cases start without one member's sign public key (learnt from the
+	// member's announcement during the case); in half of those somebody squats on that id
+	var clean []int // members that send nothing but honest / duplicate messages
+	for i := 0; i < n; i++ {
+		ok := true
+		for _, m := range msgs {
+			if m.From == i && m.Class != "honest" && m.Class != "duplicate" {
+				ok = false
+			}
+		}
+		if ok {
+			clean = append(clean, i)
+		}
+	}
+	if rng.Intn(5) == 0 && len(clean) > 0 {
+		late := clean[rng.Intn(len(clean))]
+		c.LateKey = late + 1
+		if rng.Intn(2) == 0 {
+			sq := Msg{From: late, Class: "signpk-squat"}
+			pos := rng.Intn(len(msgs) + 1)
+			if rng.Intn(2) == 0 {
+				pos = 0
+			}
+			msgs = append(msgs[:pos], append([]Msg{sq}, msgs[pos:]...)...)
 		}
 	}
 	c.Msgs = msgs
@@ -355,7 +461,7 @@ func nontrivial(c Case, k int) bool {
 			if hon >= k {
 				return false
 			}
-		} else if m.Class != "duplicate" && m.Class != "non-member" {
+		} else if m.Class != "duplicate" && m.Class != "non-member" && m.Class != "non-member-announced" {
 			return true
 		}
 	}
@@ -393,7 +499,8 @@ func child(args []string) {
 	ns := &netStub{}
 	rng := r.Rand("c15-group", n, from)
 	g := newGroup(rng, n, store)
-	group_create.VerifSetup(*g.members[0], store, ns)
+	g.ns = ns
+	g.installStore(store, -1)
 	if g.dkg.Results[0] != 1 {
 		fmt.Println("MACHINERY: DKG did not complete")
 		os.Exit(3)
